@@ -477,4 +477,31 @@ theorem d19c_witness :
     searchWorkFull [] (List.replicate 8 [97, 10]) = 72 ∧
     searchWorkIncr [] (List.replicate 8 [97, 10]) = 23 := by decide
 
+/-! ## many signatures over one message (known finding D19d)
+
+Every One-Pass Signature packet of a message is a hasher that sees the whole data: the work of reading
+the message is (number of signature packets) × (data length), which no constant multiple of the input
+size bounds. -/
+
+theorem many_signatures_work_is_a_product (n : Nat) (chunks : List Nat) :
+    sigHashWork n chunks = n * chunks.sum := sigHashWork_eq n chunks
+
+/-- for every constant `c` there is a message (with `opsLen`-octet OPS packets and `sigLen`-octet
+signature packets, e.g. 15 and 19) whose hashing work exceeds `c` times its size -/
+theorem many_signatures_work_not_linear (c opsLen sigLen : Nat) :
+    ∃ n dataLen, c * opsMessageSize n opsLen sigLen dataLen < sigHashWork n [dataLen] := by
+  refine ⟨2 * c + 1, (2 * c + 1) * (opsLen + sigLen) + 1, ?_⟩
+  rw [sigHashWork_eq]
+  simp only [opsMessageSize, List.sum_cons, List.sum_nil, Nat.add_zero]
+  generalize hk : opsLen + sigLen = k
+  have e1 : (2 * c + 1) * opsLen + ((2 * c + 1) * k + 1) + (2 * c + 1) * sigLen = 2 * ((2 * c + 1) * k) + 1 := by
+    rw [← hk, Nat.mul_add]; omega
+  rw [e1]
+  generalize (2 * c + 1) * k = m
+  rw [Nat.add_mul, Nat.mul_add, Nat.mul_add]
+  have : c * (2 * m) = 2 * c * m := by rw [← Nat.mul_assoc, Nat.mul_comm c 2]
+  omega
+
+example : sigHashWork 3 [8192, 8192, 100] = 3 * 16484 := by decide
+
 end Rpgp.C19
